@@ -5,7 +5,9 @@ Engine E1 (all histories of <= d turns over a per-turn alphabet) x E4 (store fau
 Per-turn alphabet: committed(approved list, store fault plan) | kill-switch turn (run_turn entry only).
   approved list  in {[], [d1], [d1,d2], [d1,d2,d3]}  (canonical order, as the meta-filter emits them)
   fault plan     in {ok, ok-without-reporting-counts} + {batch raises and S of the per-delta calls raise : S subset of approved}
-Settings: snapshot cadence n in {1,2,3} x cache_bust_mode in {on-apply, none} x namespaces x initial version x ctx shape.
+Settings: snapshot cadence n in {1,2,3} x cache_bust_mode in {on-apply, none} x namespaces x initial version x ctx shape
+  x key-presence shape of the t4 section (every key explicit | keys missing, the section then denotes its validated
+  normal form: see absent_menu).
 Entry points: clematis.engine.apply.apply_changes directly, and the full run_turn with the meta-filter's
 result scripted through the orchestrator's module-level `t4_filter` seam.
 
@@ -109,6 +111,52 @@ def turn_alphabet(max_n, with_kill):
 NS_MENU = {"default": ["t2:semantic"], "none": [], "raw3": ["zzz:never-created", "t2:semantic", "other:ns"]}
 
 
+# ---- presence shape of the t4 keys the property talks about -------------------------------------------------
+# A t4 section that did not go through configs/validate.py (built by hand, the shape tests / demos / embedding code
+# use) may simply lack a key.  The configuration it denotes is its validated normal form: the repository documents one
+# default per key (configs/validate.py DEFAULTS + _validate, clematis/engine/types.py default config, the fallbacks
+# spelled out in apply._get_cfg / "Default True if unspecified" in the orchestrator).  The settings entry "absent"
+# lists the key paths removed from the t4 section AFTER validation; the oracle keeps using the values of the normal
+# form (`eff` in _cfg_for).  Key paths: "cache.namespaces" (section present, key missing), "cache.*" (section present
+# and empty), "cache" (no section), "snapshot_every_n_turns", "cache_bust_mode", "enabled".
+# cache_bust_mode is the one key whose documented default (validator: on-apply) and engine fallback (none) disagree on
+# the unchanged tree, and the statement does not say whether busting is "on" then: the cache clauses are not decided
+# for settings where that key is absent (all other clauses are).
+_CACHE_SHAPES = [None, "cache.namespaces", "cache.*", "cache"]
+_SCALAR_KEYS = ["snapshot_every_n_turns", "cache_bust_mode", "enabled"]
+
+
+def absent_menu(entry, thorough):
+    """Non-empty sets of absent key paths.  thorough: every combination (cache shape x subset of scalar keys);
+    quick: every single key path + the bare section (everything absent)."""
+    scal = [k for k in _SCALAR_KEYS if not (entry == "direct" and k == "enabled")]  # apply_changes never reads `enabled`
+    out = []
+    if thorough:
+        for cs in _CACHE_SHAPES:
+            for r in range(0, len(scal) + 1):
+                for sub in itertools.combinations(scal, r):
+                    a = ([cs] if cs else []) + list(sub)
+                    if a:
+                        out.append(a)
+    else:
+        out = [[cs] for cs in _CACHE_SHAPES if cs] + [[k] for k in scal] + [["cache"] + scal]
+    return out
+
+
+def absent_settings(entry, thorough):
+    shapes = ["both", "cfg", "config"] if entry == "direct" else ["both", "cfg"]
+    for ab in absent_menu(entry, thorough):
+        ns_free = not any(a.startswith("cache") for a in ab)        # namespaces still explicit
+        busts = ["on-apply", "none"] if "cache_bust_mode" not in ab else ["on-apply"]
+        ns_list = (["default", "none"] if thorough else ["default"]) if ns_free else ["default"]
+        n_list = ([2, 3] if thorough else [2]) if "snapshot_every_n_turns" not in ab else [1]
+        for bust in busts:
+            for ns in ns_list:
+                for n in n_list:
+                    for sh in shapes:
+                        yield {"n": n, "bust": bust, "ns": ns, "ver": "41", "shape": sh, "ids": [1, 1], "absent": list(ab)}
+
+
 def settings_menu(entry, thorough):
     shapes = ["both", "cfg", "config"] if entry == "direct" else ["both", "cfg"]
     vers = [None, "0", "41"] if (thorough or entry == "direct") else [None, "41"]
@@ -131,13 +179,39 @@ def settings_menu(entry, thorough):
 
 
 def _cfg_for(st, snap_dir, enabled=True):
+    """-> (cfg, eff): cfg as handed to the engine, eff = the configuration it denotes (values of the validated normal
+    form: n, bust (None = not decided, key absent), ns)."""
     ns = list(NS_MENU[st["ns"]])
-    over = {"t4": {"enabled": enabled, "snapshot_every_n_turns": st["n"], "cache_bust_mode": st["bust"],
-                   "cache": {"namespaces": ns if st["ns"] != "raw3" else ["t2:semantic"]}}}
-    cfg = W.make_cfg(over, snap_dir=snap_dir)
+    absent = list(st.get("absent") or [])
+    t4 = {"enabled": enabled, "snapshot_every_n_turns": st["n"], "cache_bust_mode": st["bust"],
+          "cache": {"namespaces": ns if st["ns"] != "raw3" else ["t2:semantic"]}}
+    # the normal form is computed from the section WITHOUT the absent keys: the repository's validator fills them in
+    for a in absent:
+        if a in ("cache.namespaces", "cache.*"):
+            t4["cache"].pop("namespaces", None)
+        elif a == "enabled":
+            if enabled:                      # a kill-switch turn always says enabled: false explicitly
+                t4.pop("enabled", None)
+        else:
+            t4.pop(a, None)
+    cfg = W.make_cfg({"t4": t4}, snap_dir=snap_dir)
+    c4 = cfg["t4"]
+    eff = {"n": int(c4["snapshot_every_n_turns"]), "ns": [str(x) for x in c4["cache"]["namespaces"]],
+           "bust": None if "cache_bust_mode" in absent else str(c4["cache_bust_mode"])}
     if st["ns"] == "raw3":
-        cfg["t4"]["cache"]["namespaces"] = ns   # not validator-accepted: direct apply_changes entry only
-    return cfg
+        c4["cache"]["namespaces"] = ns   # not validator-accepted: direct apply_changes entry only
+        eff["ns"] = ns
+    for a in absent:
+        if a == "cache.namespaces":
+            c4["cache"].pop("namespaces", None)
+        elif a == "cache.*":
+            c4["cache"] = type(c4)()
+        elif a == "enabled":
+            if enabled:
+                c4.pop("enabled", None)
+        else:
+            c4.pop(a, None)
+    return cfg, eff
 
 
 def _seed_cache(state):
@@ -192,8 +266,8 @@ def run_history(case, scratch):
                     "%s [entry=%s settings=%s history=%s]" % (what, entry, json.dumps(st), json.dumps(hist))))
 
     try:
-        cfg_on = _cfg_for(st, ex.snap_dir, True)
-        cfg_off = _cfg_for(st, ex.snap_dir, False)
+        cfg_on, eff = _cfg_for(st, ex.snap_dir, True)
+        cfg_off, _ = _cfg_for(st, ex.snap_dir, False)
         state = W.make_world("W1") if entry == "turn" else {"active_graphs": []}
         store = RecStore()
         if entry == "turn":
@@ -271,19 +345,21 @@ def run_history(case, scratch):
             if entry == "direct" and res_ver != ver1:
                 bad("version-result", "turn %d ApplyResult.version_etag %r != state %r" % (turn, res_ver, ver1))
             # snapshot cadence
-            should = (turn % st["n"]) == 0
+            should = (turn % eff["n"]) == 0
             present = os.path.exists(snap_file)
             if should != present:
                 bad("cadence", "turn %d cadence n=%d: snapshot %s, expected %s" % (
-                    turn, st["n"], "written" if present else "not written", "written" if should else "not written"))
-            # cache invalidation
-            conf = NS_MENU[st["ns"]]
+                    turn, eff["n"], "written" if present else "not written", "written" if should else "not written"))
+            # cache invalidation (eff = the configuration the section denotes; absent keys read as their documented default)
+            conf = eff["ns"]
             for ns in ("t2:semantic", "other:ns", "third:ns"):
-                want_empty = st["bust"] == "on-apply" and ns in conf
+                if eff["bust"] is None and ns in conf:
+                    continue    # cache_bust_mode absent: the statement does not say whether busting is on
+                want_empty = eff["bust"] == "on-apply" and ns in conf
                 if want_empty and _ns_size(cm, ns) != 0:
-                    bad("cache-bust:not-invalidated", "turn %d namespace %s still has %d entries with cache_bust_mode=on-apply" % (turn, ns, _ns_size(cm, ns)))
+                    bad("cache-bust:not-invalidated", "turn %d namespace %s still has %d entries with cache_bust_mode=on-apply (configured namespaces %r)" % (turn, ns, _ns_size(cm, ns), conf))
                 if (not want_empty) and not _ns_has_seed(cm, ns):
-                    bad("cache-bust:over-invalidated", "turn %d namespace %s lost its entry (bust=%s, configured=%r)" % (turn, ns, st["bust"], conf))
+                    bad("cache-bust:over-invalidated", "turn %d namespace %s lost its entry (bust=%s, configured=%r)" % (turn, ns, eff["bust"], conf))
             if entry == "turn":
                 if _count_lines(os.path.join(ex.log_dir, "t4.jsonl")) != t4_lines0 + 1 or \
                         _count_lines(os.path.join(ex.log_dir, "apply.jsonl")) != ap_lines0 + 1:
@@ -321,7 +397,10 @@ def _worker(chunk, st: Stats, scratch):
         st.add("transitions", n)
         st.add("validated", n)
         st.add("histories")
-        st.distinct("states", (case["entry"], final, case["settings"]["n"], case["settings"]["bust"], case["settings"]["ns"]))
+        st.distinct("states", (case["entry"], final, case["settings"]["n"], case["settings"]["bust"], case["settings"]["ns"],
+                               tuple(case["settings"].get("absent") or ())))
+        if case["settings"].get("absent"):
+            st.add("histories_key_absent")
         if any(h[2][0] == "batchfail" or h[0] == "kill" for h in case["history"]):
             st.add("nontrivial")
         st.distinct("outcomes", (case["entry"], final[0], final[2], tuple(sorted(s for s, _ in res))))
@@ -354,6 +433,18 @@ def cases(thorough):
                 hs.add(json.dumps(h))
         for h in sorted(hs):
             out.append({"entry": "turn", "settings": sett, "history": json.loads(h)})
+    # key-presence shapes of the t4 section (see absent_menu): histories of <=2 turns (a second call in the same process
+    # is included); thorough: direct over the full alphabet, turn over the small one; quick: approved lists of <=2 / <=1
+    a_direct = alpha if thorough else turn_alphabet(2, with_kill=False)
+    for sett in absent_settings("direct", thorough):
+        for d in range(1, 3):
+            for h in itertools.product(a_direct, repeat=d):
+                out.append({"entry": "direct", "settings": sett, "history": [list(x) for x in h]})
+    a_turn = alpha_small if thorough else turn_alphabet(1, with_kill=True)
+    for sett in absent_settings("turn", thorough):
+        for d in range(1, 3):
+            for h in itertools.product(a_turn, repeat=d):
+                out.append({"entry": "turn", "settings": sett, "history": [list(x) for x in h]})
     return out
 
 
@@ -363,9 +454,20 @@ def run(run: Run) -> None:
     run.rule = ("all histories of <=d turns over {commit(approved in [],[d1],[d1,d2],[d1,d2,d3]; fault plan ok | batch raises + every "
                 "subset of per-delta calls raising) | kill-switch turn} x cadence{1,2,3} x bust{on-apply,none} x namespaces x "
                 "initial version x ctx shape, for apply_changes directly (d<=%d) and full run_turn with scripted meta-filter result; "
-                "non-trivial = history with a store fault or a kill-switch turn" % (3 if run.thorough else 2))
+                "plus key-presence shapes of the t4 section (keys removed after validation: cache.namespaces | whole cache "
+                "section emptied | cache section absent | snapshot_every_n_turns | cache_bust_mode | enabled; %s) x histories "
+                "of <=2 turns on both entry points, expected behaviour = that of the validated normal form of the section; "
+                "non-trivial = history with a store fault or a kill-switch turn"
+                % (3 if run.thorough else 2,
+                   "every combination" if run.thorough else "each single key path + everything absent"))
     run.notes["histories_total"] = len(cs)
+    run.notes["key_presence_shapes"] = {e: len(absent_menu(e, run.thorough)) for e in ("direct", "turn")}
+    run.notes["histories_key_absent"] = sum(1 for c in cs if c["settings"].get("absent"))
     run.pmap(_worker, cs, extra=(run.scratch,))
+    run.assume("a t4 section lacking a key denotes the configuration configs.validate.validate_config normalises it to "
+               "(documented defaults: namespaces [t2:semantic], snapshot every turn, T4 enabled); with cache_bust_mode "
+               "absent the cache clauses are not decided (validator default on-apply, engine fallback none)")
+    run.assume("the t4 section itself and t4.snapshot_dir are always present (snapshots must stay inside the scratch dir)")
     run.assume("store double is all-or-nothing per call (hypothesis stated in the property)")
     run.assume("approved lists are given in canonical target order, as the meta-filter emits them")
     run.assume("boot snapshot loading is disabled (state._boot_loaded) so the scripted initial version stands")
